@@ -14,6 +14,8 @@
   but `$facet`).
 -/
 import Proofs.C03
+import Proofs.C03Ext
+
 
 namespace MongoModel.Props.C03
 open MongoModel MongoModel.Proofs.C11 MongoModel.Spec.Pipe
@@ -467,5 +469,354 @@ theorem unwind_index_full_fails : ¬ unwind_index_full := by
   have := h "l" "i" true (.doc [("_id", .int 0)])
   revert this
   decide +kernel
+
+/-! ## extension: the remaining stages against the oracle (Spec/PipelineExt.lean)
+
+  The oracle of Spec/PipelineExt.lean speaks about `$group` (with the accumulators `$sum $avg $min
+  $max $first $last $push $addToSet`), `$lookup`, `$addFields` / `$set`, `$replaceRoot` and
+  `$facet`; expression values are those of the C04 oracle `Spec.specEval`, reached through
+  `Props.C04.eval_eq_spec_partial`.  Every domain is a decidable list of named reasons. -/
+
+section Extension
+open MongoModel.Spec
+
+/-! ### accumulators -/
+
+/-- **acc_minmax_spec (partial).** Over values of ONE class — numbers, strings or naive dates,
+    nulls skipped (`oneClass`) — `$min` / `$max` answer the smallest / largest value in the BSON
+    order, the earliest among equals, null when there is none. -/
+theorem acc_minmax_spec_partial (values : List Val) (h : oneClass values = true) :
+    Pipe.accApply "$min" values = .ok (specExtremum false (values.map some)) ∧
+    Pipe.accApply "$max" values = .ok (specExtremum true (values.map some)) :=
+  ⟨by simpa [Pipe.accApply] using Pipe.Proofs.acc_minmax false values h,
+   by simpa [Pipe.accApply] using Pipe.Proofs.acc_minmax true values h⟩
+
+example : oneClass [.int 3, .null, .dbl 5 1, .int (-2)] = true ∧
+    oneClass [.str "b", .str "a", .null] = true ∧
+    oneClass [.date 1000 none, .date 0 none] = true := by decide +kernel
+
+def accIs (r : R Val) (v : Val) : Bool :=
+  match r with
+  | .ok x => valIs x v
+  | .error _ => false
+
+/-- the oracle answers exactly this value / these documents (a decidable check: `Val` has
+    structural `beq`, no `DecidableEq`) -/
+def optValIs (r : Option Val) (v : Val) : Bool :=
+  match r with
+  | some x => valIs x v
+  | none => false
+
+def optDocsAre (r : Option (List Val)) (l : List Val) : Bool :=
+  match r with
+  | some x => beqList x l
+  | none => false
+
+/-- the full-strength `$max` law: the largest value in the BSON order, whatever the types -/
+def minmax_spec_full : Prop :=
+  ∀ values : List Val, accIs (Pipe.accApply "$max" values) (specExtremum true (values.map some)) = true
+
+/-- False of the code as it stands (known finding `minmaxtypes`): a number and a string raise
+    TypeError; MongoDB answers the string (strings sort after numbers). -/
+theorem minmax_spec_full_fails : ¬ minmax_spec_full := by
+  intro h
+  have := h [.int 1, .str "x"]
+  revert this
+  decide +kernel
+
+/-- **acc_sum_spec (partial).** `$sum` adds the integers and ignores what is not a number, when
+    no value is a boolean (finding `sumbool`) or a double (outside the integer oracle). -/
+theorem acc_sum_spec_partial (values : List Val) (h : values.all sumOk = true) :
+    Pipe.accApply "$sum" values = .ok (.int (specSumInt (values.map some))) :=
+  Pipe.Proofs.acc_sum values (fun v hv => List.all_eq_true.mp h v hv)
+
+example : [Val.int 3, .str "x", .null, .int 4].all sumOk = true := by decide +kernel
+
+/-- the full-strength `$sum` law over values without doubles -/
+def sum_spec_full : Prop :=
+  ∀ values : List Val, values.any isDblV = false →
+    accIs (Pipe.accApply "$sum" values) (.int (specSumInt (values.map some))) = true
+
+/-- False of the code as it stands (known finding `sumbool`): `true` counts as 1. -/
+theorem sum_spec_full_fails : ¬ sum_spec_full := by
+  intro h
+  have := h [.bool true, .int 2] (by decide)
+  revert this
+  decide +kernel
+
+/-- **acc_avg_spec (partial).** `$avg` over integers (non-numbers ignored, no boolean, no double)
+    is the EXACT average `sum / count` written as the double `m / 2^e` in lowest terms
+    (`binFraction`), null when there is no number — whenever that average is a double
+    (`specAvgInt` is `some`, 53 bits of mantissa: `avgFits`). -/
+theorem acc_avg_spec_partial (values : List Val) (v : Val) (h : values.all sumOk = true)
+    (hs : specAvgInt (values.map some) = some v) (hf : avgFits v = true) :
+    Pipe.accApply "$avg" values = .ok v :=
+  Pipe.Proofs.acc_avg values (fun x hx => List.all_eq_true.mp h x hx) v hs hf
+
+example : [Val.int 5, .str "x", .int 2].all sumOk = true ∧
+    optValIs (specAvgInt ([Val.int 5, .str "x", .int 2].map some)) (.dbl 7 1) = true ∧
+    avgFits (.dbl 7 1) = true := by decide +kernel
+
+/-- the characterisation of the fraction: `m / 2^e = s / n` exactly, with the least `e` -/
+theorem avg_is_exact (s : Int) (n : Nat) (m : Int) (e : Nat) (h : binFraction s n = some (m, e)) :
+    m * (n : Int) = s * 2 ^ e ∧ ∀ e' < e, ¬ ((n : Int) ∣ s * 2 ^ e') :=
+  Pipe.Proofs.binFraction_spec s n m e h
+
+example : binFraction 7 2 = some (7, 1) ∧ binFraction 6 4 = some (3, 1) ∧ binFraction 7 3 = none := by
+  decide +kernel
+
+/-- **acc_addToSet_spec (partial).** Over scalar values that are truthy or null (`setOk`: a falsy
+    value would be turned into null, finding `addtosetfalsy`) `$addToSet` answers each distinct
+    value once, by first appearance. -/
+theorem acc_addToSet_spec_partial (values : List Val) (h : values.all setOk = true) :
+    Pipe.accApply "$addToSet" values = .ok (.arr (specAddToSet values)) :=
+  Pipe.Proofs.acc_addToSet values (fun v hv => List.all_eq_true.mp h v hv)
+
+example : [Val.int 3, .str "x", .null, .dbl 3 0, .int 3, .str "x"].all setOk = true ∧
+    beqList (specAddToSet [Val.int 3, .str "x", .null, .dbl 3 0, .int 3, .str "x"])
+      [.int 3, .str "x", .null] = true := by decide +kernel
+
+/-- … and the oracle's set really is "each distinct value once": a sub-list of the values with
+    pairwise different elements in which every value has an equal representative. -/
+theorem addToSet_is_a_set (values : List Val) :
+    (specAddToSet values).Sublist values ∧
+    (specAddToSet values).Pairwise (fun a b => keyEq a b = false) ∧
+    ∀ v ∈ values, ∃ x ∈ specAddToSet values, keyEq x v = true :=
+  ⟨Pipe.Proofs.distinctKeys_sublist values, Pipe.Proofs.distinctKeys_pairwise values,
+   Pipe.Proofs.distinctKeys_cover values⟩
+
+/-- **acc_first_last_spec (partial).** `$first` / `$last` answer the value on the group's first /
+    last document (null when it is missing there) whenever skipping the documents without a value
+    does not change the answer (`firstOk`; otherwise finding `firstmissing`). -/
+theorem acc_first_last_spec_partial (vals : List (Option Val)) :
+    (firstOk vals = true → Pipe.accApply "$first" (specPush vals) = .ok (specFirst vals)) ∧
+    (firstOk vals.reverse = true → Pipe.accApply "$last" (specPush vals) = .ok (specLast vals)) :=
+  ⟨fun h => by rw [Pipe.Proofs.acc_first, Pipe.Proofs.specFirst_present vals h],
+   fun h => by rw [Pipe.Proofs.acc_last, Pipe.Proofs.specLast_present vals h]⟩
+
+example : firstOk [some (.int 1), none, some (.int 3)] = true ∧
+    firstOk [some (Val.int 1), none, some (.int 3)].reverse = true ∧
+    firstOk ([none, none] : List (Option Val)) = true := by decide +kernel
+
+/-- **accumulator_eq_spec (partial).** All eight accumulators at once: on the values `vals` the
+    accumulator's expression takes on a group (`none` = missing), outside every exclusion class
+    of `accReasons`, the code's accumulator — which sees the present values only — answers the
+    oracle's value. -/
+theorem accumulator_eq_spec_partial (op : String) (vals : List (Option Val)) (v : Val)
+    (hD : accReasons op vals = []) (hs : specAcc op vals = some v) :
+    Pipe.accApply op (specPush vals) = .ok v :=
+  Pipe.Proofs.accApply_eq_spec op vals v hD hs
+
+example : accReasons "$avg" [some (.int 5), none, some (.int 2)] = [] ∧
+    optValIs (specAcc "$avg" [some (.int 5), none, some (.int 2)]) (.dbl 7 1) = true ∧
+    accReasons "$max" [some (.str "a"), some .null, some (.str "b")] = [] ∧
+    optValIs (specAcc "$max" [some (.str "a"), some .null, some (.str "b")]) (.str "b") = true := by
+  decide +kernel
+
+/-! ### `$group` -/
+
+def groupSpec : Val := .doc [("_id", .str "$k"), ("n", .doc [("$sum", .int 1)]),
+  ("s", .doc [("$sum", .str "$a")]), ("av", .doc [("$avg", .str "$a")]),
+  ("mn", .doc [("$min", .str "$a")]), ("mx", .doc [("$max", .str "$a")]),
+  ("f", .doc [("$first", .str "$a")]), ("l", .doc [("$last", .str "$_id")]),
+  ("p", .doc [("$push", .str "$a")]), ("st", .doc [("$addToSet", .str "$k")]),
+  ("t", .doc [("$sum", .doc [("$multiply", .arr [.str "$a", .str "$_id"])])])]
+
+/-- **group_eq_spec (partial).** On the domain `groupReasons = []` — scalar non-boolean keys, key
+    expression in the C04 domain and not a falsy constant (a null `_id` is allowed over a
+    non-empty input), accumulators among the eight whose argument is in the C04 domain and is a
+    field path / variable / constant or ONE variadic operator over such operands that all have a
+    value (`accArgReasons`: the code evaluates the argument with missing values propagating),
+    values outside the accumulator exclusion classes — the `$group` stage answers the groups
+    of `Spec.specGroups`, each with its accumulator values, as a multiset: a permutation of the
+    oracle's documents, each up to the place of `_id` (`Spec.Proj.idLast`). -/
+theorem group_eq_spec_partial (opts : Val) (docs s : List Val)
+    (hD : groupReasons opts docs = []) (hs : specGroupStage opts docs = some s) :
+    ∃ out, Pipe.groupStage opts docs = .ok out ∧ out.Perm (s.map Spec.Proj.idLast) :=
+  Pipe.Proofs.group_eq_spec_perm opts docs s hD hs
+
+example : groupReasons groupSpec sample = [] ∧ (specGroupStage groupSpec sample).isSome = true ∧
+    ((specGroupStage groupSpec sample).map List.length) = some 3 := by decide +kernel
+
+/-- a null `_id` over a non-empty input is inside the domain: one group -/
+example : groupReasons (.doc [("_id", .null), ("n", .doc [("$sum", .int 1)])]) sample = [] ∧
+    optDocsAre (specGroupStage (.doc [("_id", .null), ("n", .doc [("$sum", .int 1)])]) sample)
+      [.doc [("_id", .null), ("n", .int 4)]] = true := by decide +kernel
+
+/-- **group_eq_spec_sorted (partial).** … and the order is determined: the code lists the groups
+    in ascending BSON order of their keys and writes `_id` last — exactly the representative
+    `specGroupStageSorted` of the oracle's multiset. -/
+theorem group_eq_spec_sorted_partial (opts : Val) (docs s : List Val)
+    (hD : groupReasons opts docs = []) (hs : specGroupStageSorted opts docs = some s) :
+    Pipe.groupStage opts docs = .ok s :=
+  Pipe.Proofs.group_eq_spec_sorted opts docs s hD hs
+
+example : groupReasons groupSpec sample = [] ∧
+    (specGroupStageSorted groupSpec sample).isSome = true := by decide +kernel
+
+/-- the sorted representative holds the same documents as the oracle's list -/
+theorem group_sorted_is_perm (opts : Val) (docs s : List Val)
+    (hs : specGroupStage opts docs = some s) :
+    ∃ s' : List Val, specGroupStageSorted opts docs = some (s'.map Spec.Proj.idLast) ∧ s'.Perm s :=
+  Pipe.Proofs.specGroupStageSorted_perm opts docs s hs
+
+/-- the full-strength statement: wherever the oracle speaks the stage answers its representative -/
+def group_eq_spec_full : Prop :=
+  ∀ (opts : Val) (docs : List Val),
+    agreeB (Pipe.groupStage opts docs) (specGroupStageSorted opts docs) = true
+
+/-- False of the code as it stands (known finding `groupfalsyid`): `_id: 0` reports `_id: null`. -/
+theorem group_eq_spec_full_fails : ¬ group_eq_spec_full := by
+  intro h
+  have := h (.doc [("_id", .int 0), ("n", .doc [("$sum", .int 1)])]) sample
+  revert this
+  decide +kernel
+
+/-- the full-strength statement about operator arguments of an accumulator -/
+def group_operator_arg_full : Prop :=
+  ∀ (e : Val) (docs : List Val),
+    agreeB (Pipe.groupStage (.doc [("_id", .null), ("p", .doc [("$push", e)])]) docs)
+      (specGroupStageSorted (.doc [("_id", .null), ("p", .doc [("$push", e)])]) docs) = true
+
+/-- False of the code as it stands (finding `accmissing`, of the family of `firstmissing`): the
+    argument is parsed without `ignore_missing_keys`, so `{$add: ["$a", "$zz"]}` on a document
+    without `zz` raises KeyError and the document is skipped — `$push` answers `[]`; by the rules
+    the operator reads the missing operand as null and `$push` answers `[null]`. -/
+theorem group_operator_arg_full_fails : ¬ group_operator_arg_full := by
+  intro h
+  have := h (.doc [("$add", .arr [.str "$a", .str "$zz"])]) [d0]
+  revert this
+  decide +kernel
+
+/-- the accumulator argument is read strictly; inside `accArgReasons` that is the lenient reading
+    of the C04 theorem -/
+theorem accumulator_argument_strict (e : Val) (g : List Val) (h : accArgReasons e g = []) :
+    ∀ d ∈ g, Expr.evalExprStrict d e = Expr.evalExpr d e :=
+  Pipe.Proofs.accArg_strict e g h
+
+example : accArgReasons (.doc [("$multiply", .arr [.str "$a", .str "$_id"])]) sample = [] ∧
+    accArgReasons (.str "$zz") sample = [] ∧
+    accArgReasons (.doc [("$add", .arr [.str "$a", .str "$zz"])]) [d0] = ["accmissing"] := by
+  decide +kernel
+
+/-! ### `$lookup` -/
+
+def lookupSpec : Val := .doc [("from", .str "other"), ("localField", .str "k"),
+  ("foreignField", .str "fk"), ("as", .str "j")]
+
+/-- **lookup_eq_spec (partial).** With top-level `localField` / `foreignField` / `as`, a scalar
+    local value (missing = null) and no boolean facing a number (finding `lookupboolnum`; foreign
+    dates naive), `$lookup` is `specLookupDoc` on every document: the foreign documents whose
+    foreign value equals the local one — or holds it, when it is an array — in foreign order. -/
+theorem lookup_eq_spec_partial (db : Pipe.Db) (opts : Val) (docs s : List Val)
+    (hD : lookupReasons db opts docs = []) (hs : specLookupStage db opts docs = some s) :
+    Pipe.lookupStage db opts docs = .ok s :=
+  Pipe.Proofs.lookup_eq_spec db opts docs s hD hs
+
+example : lookupReasons db lookupSpec sample = [] ∧
+    (specLookupStage db lookupSpec sample).isSome = true := by decide +kernel
+
+def lookup_eq_spec_full : Prop :=
+  ∀ (db : Pipe.Db) (opts : Val) (docs : List Val),
+    agreeB (Pipe.lookupStage db opts docs) (specLookupStage db opts docs) = true
+
+/-- False of the code as it stands (known finding `lookupboolnum`): `true` joins `1`. -/
+theorem lookup_eq_spec_full_fails : ¬ lookup_eq_spec_full := by
+  intro h
+  have := h ⟨[("other", [.doc [("_id", .int 10), ("fk", .int 1)]])]⟩ lookupSpec
+    [.doc [("_id", .int 0), ("k", .bool true)]]
+  revert this
+  decide +kernel
+
+/-! ### `$addFields` / `$set`, `$replaceRoot` -/
+
+def addSpec : Val := .doc [("r", .doc [("$add", .arr [.str "$a", .int 1])]), ("a", .str "$k"),
+  ("z", .str "$zz")]
+
+/-- **addFields_eq_spec (partial).** For a stage whose entries are distinct top-level names
+    (a dotted name writes through a shared sub-document: finding `addfieldsorder`) with
+    expressions in the C04 domain, output `i` is input `i` with each name set, in order, to the
+    value the oracle gives its expression ON THE INPUT DOCUMENT — an entry never sees what another
+    entry of the same stage wrote — and left alone when that value is missing. -/
+theorem addFields_eq_spec_partial (opts : Val) (docs s : List Val)
+    (hD : addFieldsReasons opts docs = []) (hs : specAddFieldsStage opts docs = some s) :
+    Pipe.addFieldsStage opts docs = .ok s :=
+  Pipe.Proofs.addFields_eq_spec opts docs s hD hs
+
+/-- `a` is overwritten with `$k` while `r` still reads the input's `a`; `z` (missing) is omitted -/
+example : addFieldsReasons addSpec [d0, d2] = [] ∧ optDocsAre (specAddFieldsStage addSpec [d0, d2])
+    [.doc [("_id", .int 0), ("k", .int 1), ("a", .int 1), ("l", .arr [.int 1, .int 2]), ("r", .int 6)],
+     .doc [("_id", .int 2), ("k", .int 1), ("a", .int 1), ("r", .int 3)]] = true := by decide +kernel
+
+/-- **replaceRoot_eq_spec (partial).** `{$replaceRoot: {newRoot: e}}` with `e` in the C04 domain
+    answers, for each document, the document `e` evaluates to (the oracle is silent when `e` is
+    missing or not a document). -/
+theorem replaceRoot_eq_spec_partial (opts : Val) (docs s : List Val)
+    (hD : replaceRootReasons opts docs = []) (hs : specReplaceRootStage opts docs = some s) :
+    Pipe.replaceRootStage opts docs = .ok s :=
+  Pipe.Proofs.replaceRoot_eq_spec opts docs s hD hs
+
+example : replaceRootReasons (.doc [("newRoot", .doc [("x", .str "$a"), ("y", .int 1)])]) sample = [] ∧
+    (specReplaceRootStage (.doc [("newRoot", .doc [("x", .str "$a"), ("y", .int 1)])]) sample).isSome
+      = true := by decide +kernel
+
+/-! ### every stage, pipelines, `$facet` -/
+
+/-- **stageX_eq_spec (partial).** `stage_eq_spec_partial` with the extended oracle and domain:
+    twelve stage kinds instead of seven. -/
+theorem stageX_eq_spec_partial (db : Pipe.Db) (op : String) (opts : Val) (docs s : List Val)
+    (hD : stageReasonsX db op opts docs = []) (hs : specStageX db op opts docs = some s) :
+    Pipe.simpleStage db op opts docs = .ok s :=
+  Pipe.Proofs.stageX_eq_spec db op opts docs s hD hs
+
+example : stageReasonsX db "$group" groupSpec sample = [] ∧
+    (specStageX db "$group" groupSpec sample).isSome = true ∧
+    stageReasonsX db "$set" addSpec [d0, d2] = [] ∧
+    (specStageX db "$set" addSpec [d0, d2]).isSome = true := by decide +kernel
+
+/-- the extension is conservative: on the other stage kinds nothing changes -/
+theorem stageX_extends (db : Pipe.Db) (op : String) (opts : Val) (docs : List Val)
+    (h : ["$group", "$lookup", "$addFields", "$set", "$replaceRoot"].contains op = false) :
+    specStageX db op opts docs = specStage op opts docs ∧
+    stageReasonsX db op opts docs = stageReasons op opts docs := by
+  simp only [List.contains_cons, List.contains_nil, Bool.or_false, Bool.or_eq_false_iff,
+    beq_eq_false_iff_ne, ne_eq] at h
+  obtain ⟨h1, h2, h3, h4, h5⟩ := h
+  simp [specStageX, stageReasonsX, h1, h2, h3, h4, h5]
+
+def pipeX : List Val :=
+  [.doc [("$match", .doc [("a", .doc [("$gt", .int 1)])])],
+   .doc [("$lookup", lookupSpec)],
+   .doc [("$addFields", .doc [("nj", .doc [("$size", .str "$j")])])],
+   .doc [("$group", .doc [("_id", .str "$k"), ("n", .doc [("$sum", .int 1)]),
+      ("m", .doc [("$max", .str "$nj")]), ("ids", .doc [("$push", .str "$_id")])])],
+   .doc [("$sort", .doc [("n", .int (-1))])],
+   .doc [("$limit", .int 1)]]
+
+/-- **pipelineX_eq_spec (partial).** A pipeline of single-operator stages, each inside the
+    extended domain on the documents the oracle feeds it, computes what the oracle computes. -/
+theorem pipelineX_eq_spec_partial (db : Pipe.Db) (p docs s : List Val)
+    (hD : pipelineReasonsX db p docs = []) (hs : specPipelineX db p docs = some s) :
+    Pipe.runPipeline db p docs = .ok s :=
+  Pipe.Proofs.pipelineX_eq_spec db p docs s hD hs
+
+example : inDX db pipeX sample = true ∧ optDocsAre (specPipelineX db pipeX sample)
+    [.doc [("n", .int 2), ("m", .int 2), ("ids", .arr [.int 0, .int 2]), ("_id", .int 1)]] = true := by
+  decide +kernel
+
+/-- **facet_eq_spec.** `$facet` answers ONE document that maps each name to the oracle's output of
+    its sub-pipeline on the very same input, when every branch is inside the extended domain. -/
+theorem facet_eq_spec (db : Pipe.Db) (gs : Fields) (docs : List Val) (fs : Fields)
+    (hD : facetReasons db gs docs = []) (hs : specFacet db gs docs = some fs) :
+    Pipe.runOp db "$facet" (.doc gs) docs = .ok [.doc fs] :=
+  Pipe.Proofs.facet_eq_spec db gs docs fs hD hs
+
+example : facetReasons db [("top", .arr pipeX), ("cnt", .arr [.doc [("$count", .str "n")]])] sample = [] ∧
+    optValIs ((specFacet db [("top", .arr pipeX), ("cnt", .arr [.doc [("$count", .str "n")]])] sample).map
+      Val.doc) (.doc
+      [("top", .arr [.doc [("n", .int 2), ("m", .int 2), ("ids", .arr [.int 0, .int 2]), ("_id", .int 1)]]),
+       ("cnt", .arr [.doc [("n", .int 4)]])]) = true := by decide +kernel
+
+end Extension
 
 end MongoModel.Props.C03
